@@ -370,6 +370,23 @@ def origin(body, op, through_calls=True, max_nodes=400, _depth=0):
             if isinstance(e, dict) and 'i' in e:
                 first_field = e['i']
             break
+        # what is asked of the selected member, after the first field (x.f.REST -> REST); leading derefs / downcasts skipped
+        rest_proj = None
+        for i_, e in enumerate(proj):
+            if e == '*' or (isinstance(e, dict) and 'as' in e):
+                continue
+            if isinstance(e, dict) and 'i' in e:
+                rest_proj = list(proj[i_ + 1:])
+            break
+
+        def push_member(o_):
+            pp_ = op_place(o_)
+            if pp_ is not None and rest_proj:
+                np_ = dict(pp_)
+                np_['p'] = list(pp_.get('p', [])) + rest_proj
+                push_place(np_)
+            else:
+                push_op(o_)
         for (bb, idx, kind, payload, lhs) in defs:
             if bb not in body.live_blocks() or body.is_cleanup(bb):
                 continue
@@ -432,7 +449,7 @@ def origin(body, op, through_calls=True, max_nodes=400, _depth=0):
                 elif k == 'agg':
                     if rv.get('agg') == 'adt':
                         if first_field is not None and not lproj and first_field < len(rv['ops']):
-                            push_op(rv['ops'][first_field])
+                            push_member(rv['ops'][first_field])
                         elif not rv['ops']:
                             res.atoms.add(('agg', rv['adt'], rv['variant']))
                         else:
@@ -441,7 +458,7 @@ def origin(body, op, through_calls=True, max_nodes=400, _depth=0):
                                 push_op(o)
                     elif rv.get('agg') in ('tuple', 'array'):
                         if first_field is not None and not lproj and rv.get('agg') == 'tuple' and first_field < len(rv['ops']):
-                            push_op(rv['ops'][first_field])
+                            push_member(rv['ops'][first_field])
                         else:
                             if rv.get('agg') == 'array':
                                 res.flags.add('array:%d' % len(rv['ops']))
@@ -459,11 +476,21 @@ def origin(body, op, through_calls=True, max_nodes=400, _depth=0):
                     res.atoms.add(('unknown', rv.get('text', k)[:60]))
             elif kind == 'call':
                 t = payload
+                if proj and isinstance(proj[0], dict) and proj[0].get('as') in ('Ok', 'Continue', 'Some') and \
+                        (t.get('callee') or '').endswith('FromResidual::from_residual'):
+                    continue      # builds the Err / Break / None value: not where an Ok payload comes from
                 res.calls.append(t)
                 tr = transparent(t) if through_calls else None
                 if tr is not None and tr[0] < len(t['args']):
                     res.flags.add(tr[1])
-                    push_op(t['args'][tr[0]])
+                    pa_ = op_place(t['args'][tr[0]])
+                    if tr[1] == 'try' and pa_ is not None and not pa_.get('p') and proj and isinstance(proj[0], dict) and proj[0].get('as') == 'Continue':
+                        # ((x?) payload).REST: the Continue payload of Try::branch(r) is the Ok payload of r
+                        np_ = dict(pa_)
+                        np_['p'] = [{'as': 'Ok'}] + list(proj[1:])
+                        push_place(np_)
+                    else:
+                        push_op(t['args'][tr[0]])
                 else:
                     res.atoms.add(('call', cname(t), body.id, bb))
     return res
@@ -613,6 +640,15 @@ def try_edges(body, call_bb):
         if nxt is None:
             return None
         tt = body.term(nxt)
+        if tt['k'] == 'switch':
+            # `match call() { Ok(..) => .., Err(e) => .. }` / `if let Err(e) = call() { .. }`: (Ok edge, Err edge)
+            si = body.switch_info(nxt)
+            if si and si.get('kind') == 'enum' and si.get('adt') == 'core::result::Result' and not si['place'].get('p') and si['place']['l'] == dest:
+                okb = si['variants'].get('Ok', si['otherwise'] if 'Ok' in (si.get('otherwise_variants') or []) else None)
+                erb = si['variants'].get('Err', si['otherwise'] if 'Err' in (si.get('otherwise_variants') or []) else None)
+                if okb is not None and erb is not None:
+                    return okb, erb
+            return None
         if tt['k'] != 'call':
             return None
         a0 = op_place(tt['args'][0]) if tt['args'] else None
@@ -680,6 +716,7 @@ def fn_label(body_or_id):
 # comparison guards
 
 _NEG = {'Eq': 'Ne', 'Ne': 'Eq', 'Lt': 'Ge', 'Ge': 'Lt', 'Gt': 'Le', 'Le': 'Gt'}
+_MIRROR = {'Eq': 'Eq', 'Ne': 'Ne', 'Lt': 'Gt', 'Gt': 'Lt', 'Le': 'Ge', 'Ge': 'Le'}
 
 
 def cmp_guards(body, bb):
@@ -709,8 +746,10 @@ def cmp_guards(body, bb):
             truth = not truth
         eff = op if truth else _NEG[op]
         others = [s for s in body.succs(d) if not body.dominates(s, bb)]
-        out.append({'op': eff, 'l': origin(body, lo), 'r': origin(body, ro), 'lop': lo, 'rop': ro,
-                    'switch_bb': d, 'other': others})
+        lo_, ro_ = origin(body, lo), origin(body, ro)
+        out.append({'op': eff, 'l': lo_, 'r': ro_, 'lop': lo, 'rop': ro, 'switch_bb': d, 'other': others})
+        # the same fact written the other way round (`a < b` is `b > a`): rules match either spelling
+        out.append({'op': _MIRROR[eff], 'l': ro_, 'r': lo_, 'lop': ro, 'rop': lo, 'switch_bb': d, 'other': others, 'mirrored': True})
     return out
 
 
@@ -892,6 +931,13 @@ def _local_tree(body, l, depth):
     bb, idx, kind, payload, lhs = defs[0]
     if kind == 'call':
         t = payload
+        # `u64::from(x)` / `x.into()` between integer types is the lossless form of `x as u64`
+        c_ = t.get('callee') or ''
+        if c_.endswith(('convert::From::from', 'convert::Into::into')) and len(t['args']) == 1:
+            to_ = body.local_ty(t['dest']['l'])
+            fr_ = (t.get('arg_tys') or [''])[0]
+            if to_ in _INT_BITS and fr_ in _INT_BITS and _INT_BITS[fr_] <= _INT_BITS[to_]:
+                return ('cast', to_, expr_tree(body, t['args'][0], depth - 1))
         return ('call', cname(t), [expr_tree(body, a, depth - 1) for a in t['args']])
     rv = payload
     k = rv['k']
@@ -957,11 +1003,28 @@ def narrowing_casts(o):
     return sorted(out)
 
 
+def array_newtype(facts, ty, n):
+    """ty is `[u8; n]`, or a struct whose only field is `[u8; n]` and whose PartialEq (if any) is the derived one"""
+    ty = ty.lstrip('&').strip()
+    if ty.startswith('mut '):
+        ty = ty[4:]
+    if ty == '[u8; %d]' % n:
+        return True
+    a = facts.adts.get(ty.split('<')[0])
+    if not a or a['kind'] != 'struct' or len(a['variants'][0]['fields']) != 1 or a['variants'][0]['fields'][0]['ty'] != '[u8; %d]' % n:
+        return False
+    for im in facts.impls:
+        if im.get('self_adt') == a['path'] and (im.get('trait') or '').endswith('cmp::PartialEq'):
+            if 'Derive' not in str((im.get('span') or {}).get('macro', '')):
+                return False
+    return True
+
+
 def compares_whole_arrays(body, t, n):
     """a PartialEq::eq/ne call compares two whole [u8; n] values: both argument types are (references to) the array,
     or, if they are slices, no index / range projection other than the full range lies on their origin"""
     for i, ty in enumerate(t.get('arg_tys', [])[:2]):
-        if '[u8; %d]' % n in ty:
+        if '[u8; %d]' % n in ty or array_newtype(body.facts, ty, n):
             continue
         o = origin(body, t['args'][i])
         if 'subslice' in o.flags:
@@ -1121,3 +1184,8 @@ def mentions_field(body, field, of=None):
         if walk(body.stmts(bb)) or walk(body.term(bb)):
             return True
     return False
+
+
+def is_bool_table(ty):
+    """a per-node boolean table however it is passed: Vec<bool>, &mut Vec<bool>, &mut [bool], Box<[bool]>"""
+    return 'Vec<bool>' in ty or '[bool]' in ty
